@@ -26,12 +26,16 @@ import (
 // streams are in-order lossless FIFO queues, messages are copied when sent (the wire serialises),
 // the handler's returned error is what the client receives at the end of the stream, outgoing
 // metadata arrives as incoming metadata. Fault mode: the server's Recv fails after a chosen
-// number of messages (connection broken / client cancelled).
+// number of messages (connection broken / client cancelled); a stream whose context is cancelled
+// accepts no further Send, and a stream the client never completes reaches the server as a prefix
+// of its messages followed by a non-EOF error (finishAbandoned).
 
 var errTransport = errors.New("transport is closing")
 
 type loopClient struct {
 	svc *storeService.Service
+	// upload streams the client has opened and not completed with CloseAndRecv
+	open []*setFileClient
 	// recvFailAfter >= 0: the server's Recv on an upload stream fails with a non-EOF transport
 	// error after that many messages
 	recvFailAfter int
@@ -94,22 +98,23 @@ func (c *loopClient) RollbackTx(ctx context.Context, in *pb.RollbackTxRequest, _
 
 type streamBase struct{ ctx context.Context }
 
-func (s *streamBase) Header() (metadata.MD, error)  { return nil, nil }
-func (s *streamBase) Trailer() metadata.MD          { return nil }
-func (s *streamBase) CloseSend() error              { return nil }
-func (s *streamBase) Context() context.Context      { return s.ctx }
-func (s *streamBase) SendMsg(m any) error           { return errors.New("unused") }
-func (s *streamBase) RecvMsg(m any) error           { return errors.New("unused") }
-func (s *streamBase) SetHeader(metadata.MD) error   { return nil }
-func (s *streamBase) SendHeader(metadata.MD) error  { return nil }
-func (s *streamBase) SetTrailer(metadata.MD)        {}
+func (s *streamBase) Header() (metadata.MD, error) { return nil, nil }
+func (s *streamBase) Trailer() metadata.MD         { return nil }
+func (s *streamBase) CloseSend() error             { return nil }
+func (s *streamBase) Context() context.Context     { return s.ctx }
+func (s *streamBase) SendMsg(m any) error          { return errors.New("unused") }
+func (s *streamBase) RecvMsg(m any) error          { return errors.New("unused") }
+func (s *streamBase) SetHeader(metadata.MD) error  { return nil }
+func (s *streamBase) SendHeader(metadata.MD) error { return nil }
+func (s *streamBase) SetTrailer(metadata.MD)       {}
 
 // ---- SetFile: client streaming ----
 
 type setFileClient struct {
 	streamBase
-	c *loopClient
-	q []*pb.SetFileRequest
+	c    *loopClient
+	q    []*pb.SetFileRequest
+	done bool
 }
 
 func copySetReq(r *pb.SetFileRequest) *pb.SetFileRequest {
@@ -124,6 +129,9 @@ func copySetReq(r *pb.SetFileRequest) *pb.SetFileRequest {
 }
 
 func (s *setFileClient) Send(r *pb.SetFileRequest) error {
+	if err := s.ctx.Err(); err != nil {
+		return err // the stream's context is done: nothing more is sent
+	}
 	s.q = append(s.q, copySetReq(r))
 	return nil
 }
@@ -149,6 +157,10 @@ func (s *setFileServer) Recv() (*pb.SetFileRequest, error) {
 func (s *setFileServer) SendAndClose(*pb.SetFileResponse) error { return nil }
 
 func (s *setFileClient) CloseAndRecv() (*pb.SetFileResponse, error) {
+	if err := s.ctx.Err(); err != nil {
+		return nil, err // cancelled: the stream is not half-closed, the server sees it as abandoned
+	}
+	s.done = true
 	ss := &streamBase{ctx: s.c.incoming(s.ctx)}
 	err := server.ContextStreamInterceptor(s.c.svc, ss, nil, func(srv any, stream grpc.ServerStream) error {
 		return s.c.svc.SetFile(&setFileServer{ServerStream: stream, q: s.q, failAfter: s.c.recvFailAfter})
@@ -160,7 +172,29 @@ func (s *setFileClient) CloseAndRecv() (*pb.SetFileResponse, error) {
 }
 
 func (c *loopClient) SetFile(ctx context.Context, _ ...grpc.CallOption) (pb.StoreV1_SetFileClient, error) {
-	return &setFileClient{streamBase: streamBase{ctx: ctx}, c: c}, nil
+	s := &setFileClient{streamBase: streamBase{ctx: ctx}, c: c}
+	c.open = append(c.open, s)
+	return s, nil
+}
+
+// finishAbandoned: what the server does with upload streams the client walked away from without
+// CloseAndRecv (cancelled context, dropped connection): its handler runs, receives some prefix of
+// the messages sent so far (any prefix: the reset can overtake data) and then a non-EOF error
+// from Recv - never a clean end of stream, the client did not half-close.
+func (c *loopClient) finishAbandoned() {
+	for _, s := range c.open {
+		if s.done {
+			continue
+		}
+		s.done = true
+		after := nd.Choice("abandoned-stream-delivers", len(s.q)+1)
+		ss := &streamBase{ctx: c.incoming(s.ctx)}
+		_ = server.ContextStreamInterceptor(c.svc, ss, nil, func(srv any, stream grpc.ServerStream) error {
+			return c.svc.SetFile(&setFileServer{ServerStream: stream, q: s.q, failAfter: after})
+		})
+		nd.Reach("loopback.abandoned-stream")
+	}
+	c.open = nil
 }
 
 // ---- GetFile: server streaming ----
